@@ -23,7 +23,7 @@ Local Open Scope Z_scope.
 (* ====================================================================================== *)
 (* 1. the binary64 operations of the C                                                     *)
 (* ====================================================================================== *)
-Definition b64 : Type := binary_float 53 1024.
+Notation b64 := (binary_float 53 1024).
 Definition b64_prec_gt_0 : Prec_gt_0 53 := eq_refl.
 Definition b64_prec_lt_emax : Prec_lt_emax 53 1024 := eq_refl.
 
@@ -1191,3 +1191,516 @@ Lemma fp_product_error_rho : forall dk ds dt : Z,
      Rabs (IZR dk * (IZR dt / IZR ds)) * (u64 / (1 + u64) * (2 + u64 / (1 + u64))))%R /\
   (u64 / (1 + u64) * (2 + u64 / (1 + u64)) < bpow radix2 (-52))%R.
 Proof. intros dk ds dt Hk Hs Ht H0. split; [exact (fp_product_error dk ds dt Hk Hs Ht H0)|exact rho64_lt]. Qed.
+
+(* ====================================================================================== *)
+(* 12. a single entry: extrapolation with the sample rate                                  *)
+(* ====================================================================================== *)
+Local Open Scope R_scope.
+
+Lemma Ztrunc_succ_le : forall x : R, (Ztrunc (x + 1) <= Ztrunc x + 1)%Z.
+Proof.
+  intros x. destruct (Rle_or_lt 0 x) as [H0|H0].
+  - rewrite !Ztrunc_floor by lra. pose proof (Zfloor_lb x). pose proof (Zfloor_ub x).
+    rewrite (Zfloor_imp (Zfloor x + 1)); [lia|]. rewrite !plus_IZR. lra.
+  - rewrite (Ztrunc_ceil x) by lra. pose proof (Zceil_ub x) as Hu.
+    assert (Hl : IZR (Zceil x) - 1 < x).
+    { unfold Zceil. rewrite opp_IZR. pose proof (Zfloor_ub (- x)). lra. }
+    destruct (Rle_or_lt 0 (x + 1)) as [H1|H1].
+    + rewrite Ztrunc_floor by lra.
+      assert (Hc : (-1 <= Zceil x)%Z) by (apply le_IZR; lra).
+      assert (Hf : (Zfloor (x + 1) < 1)%Z).
+      { apply lt_IZR. pose proof (Zfloor_lb (x + 1)). lra. }
+      lia.
+    + rewrite Ztrunc_ceil by lra.
+      rewrite (Zceil_imp (Zceil x + 1)); [lia|]. rewrite minus_IZR, !plus_IZR. lra.
+Qed.
+
+Lemma Ztrunc_opp' : forall x : R, Ztrunc (- x) = (- Ztrunc x)%Z.
+Proof. exact Ztrunc_opp. Qed.
+
+Lemma Ztrunc_close : forall x y : R, Rabs (x - y) < 1 -> (-1 <= Ztrunc x - Ztrunc y <= 1)%Z.
+Proof.
+  intros x y H. apply Rabs_def2 in H. split.
+  - pose proof (Ztrunc_le y (x + 1) ltac:(lra)). pose proof (Ztrunc_succ_le x). lia.
+  - pose proof (Ztrunc_le x (y + 1) ltac:(lra)). pose proof (Ztrunc_succ_le y). lia.
+Qed.
+
+Lemma Ztrunc_dist : forall x : R, Rabs (IZR (Ztrunc x) - x) < 1.
+Proof.
+  intros x. destruct (Rle_or_lt 0 x) as [H0|H0].
+  - rewrite Ztrunc_floor by lra. pose proof (Zfloor_lb x). pose proof (Zfloor_ub x). apply Rabs_def1; lra.
+  - rewrite Ztrunc_ceil by lra. pose proof (Zceil_ub x).
+    assert (IZR (Zceil x) - 1 < x) by (unfold Zceil; rewrite opp_IZR; pose proof (Zfloor_ub (- x)); lra).
+    apply Rabs_def1; lra.
+Qed.
+
+Lemma Ztrunc_abs_le : forall (x : R) (B : Z), Rabs x <= IZR B -> (Z.abs (Ztrunc x) <= B)%Z.
+Proof.
+  intros x B H. apply Rabs_le_inv in H.
+  pose proof (Ztrunc_le x (IZR B) ltac:(lra)) as H1. pose proof (Ztrunc_le (IZR (- B)) x ltac:(rewrite opp_IZR; lra)) as H2.
+  rewrite Ztrunc_IZR in H1, H2. lia.
+Qed.
+
+(* the model's (int64_t) cast is truncation of the real value *)
+Lemma Qtrunc_R : forall q : Q, Qtrunc q = Ztrunc (Q2R q).
+Proof.
+  intros [n d]. rewrite Q2R_make. unfold Qtrunc. cbn [Qnum Qden].
+  assert (Hd : 0 < IZR (Zpos d)) by (apply IZR_lt; reflexivity).
+  destruct (Z.le_gt_cases 0 n) as [Hn|Hn].
+  - rewrite Ztrunc_floor.
+    + rewrite Zfloor_div by lia. apply Z.quot_div_nonneg; lia.
+    + apply Rmult_le_pos; [apply IZR_le; exact Hn|apply Rlt_le, Rinv_0_lt_compat; exact Hd].
+  - rewrite Ztrunc_ceil.
+    + unfold Zceil. replace (- (IZR n / IZR (Zpos d))) with (IZR (- n) / IZR (Zpos d)) by (rewrite opp_IZR; field; lra).
+      rewrite Zfloor_div by lia.
+      replace n with (- - n)%Z at 1 by lia. rewrite Z.quot_opp_l by lia.
+      rewrite Z.quot_div_nonneg by lia. reflexivity.
+    + assert (IZR n <= 0) by (apply IZR_le; lia).
+      unfold Rdiv. rewrite <- (Rmult_0_l (/ IZR (Zpos d))).
+      apply Rmult_le_compat_r; [apply Rlt_le, Rinv_0_lt_compat; exact Hd|assumption].
+Qed.
+
+(* integers up to 2^53 scaled by a power of two (no underflow below 2^-1074) are doubles *)
+Lemma format_IZR_bpow : forall (n e : Z), (Z.abs n <= 2 ^ 53)%Z -> (-1074 <= e)%Z ->
+  generic_format radix2 (FLT_exp (-1074) 53) (IZR n * bpow radix2 e).
+Proof.
+  intros n e Hn He.
+  destruct (Z.eq_dec (Z.abs n) (2 ^ 53)) as [E|E].
+  - assert (Hb : generic_format radix2 (FLT_exp (-1074) 53) (IZR (2 ^ 53) * bpow radix2 e)).
+    { rewrite <- bpow_IZR by lia. rewrite <- bpow_plus. apply format_bpow. lia. }
+    assert (E' : (n = 2 ^ 53 \/ n = - 2 ^ 53)%Z) by lia.
+    destruct E' as [E'|E']; rewrite E'.
+    + exact Hb.
+    + rewrite opp_IZR, Ropp_mult_distr_l_reverse. apply generic_format_opp. exact Hb.
+  - apply generic_format_FLT. exists (Float radix2 n e).
+    + reflexivity.
+    + change (Z.abs n < 2 ^ 53)%Z. lia.
+    + exact He.
+Qed.
+
+(* a double times 2^e (e >= 0) is a double (no upper limit in the format; overflow is a guard) *)
+Lemma format_scale : forall (x : R) (e : Z), (0 <= e)%Z ->
+  generic_format radix2 (FLT_exp (-1074) 53) x -> generic_format radix2 (FLT_exp (-1074) 53) (x * bpow radix2 e).
+Proof.
+  intros x e He Fx. apply FLT_format_generic in Fx; [|reflexivity].
+  destruct Fx as [f Hx Hm Hex]. apply generic_format_FLT. exists (Float radix2 (Fnum f) (Fexp f + e)).
+  - rewrite Hx. unfold F2R. cbn [Fnum Fexp]. rewrite bpow_plus. ring.
+  - exact Hm.
+  - cbn [Fexp]. lia.
+Qed.
+
+Lemma b64_to_i64_trunc : forall x : b64, is_finite x = true -> Rabs (B2R x) <= IZR (2 ^ 62) ->
+  b64_to_i64 x = TmOk (Ztrunc (B2R x)).
+Proof.
+  intros x Hf Hb. unfold b64_to_i64. rewrite Hf.
+  assert (E : Btrunc x = Ztrunc (B2R x)).
+  { apply eq_IZR. rewrite Btrunc_correct by exact b64_prec_lt_emax. rewrite round_FIX0. reflexivity. }
+  rewrite E. replace (in64 (Ztrunc (B2R x))) with true; [reflexivity|].
+  symmetry. apply in64_true. pose proof (Ztrunc_abs_le _ _ Hb). lia.
+Qed.
+
+Lemma b64_le0_pos : forall x : b64, is_finite x = true -> 0 < B2R x -> b64_le0 x = false.
+Proof.
+  intros x Hf Hp. unfold b64_le0. rewrite Bcompare_correct by (exact Hf || reflexivity).
+  cbn [B2R]. rewrite Rcompare_Gt by exact Hp. reflexivity.
+Qed.
+
+Lemma Qabs_le_R : forall (x : Q) (B : Z), (Qabs x <= inject_Z B)%Q -> Rabs (Q2R x) <= IZR B.
+Proof. intros x B H. apply Qle_Rle in H. rewrite Q2R_Qabs, Q2R_inject_Z in H. exact H. Qed.
+
+(* one rounding with relative error u/(1+u) <= u, then truncation, against exact truncation *)
+Lemma trunc_after_rounding : forall (E y eps : R), Rabs eps <= u64 -> y = E * (1 + eps) -> Rabs E <= IZR (2 ^ 52) ->
+  (-1 <= Ztrunc y - Ztrunc E <= 1)%Z /\ Rabs (IZR (Ztrunc y) - E) < 1 + Rabs E * u64 /\ Rabs y <= IZR (2 ^ 53).
+Proof.
+  intros E y eps He Hy HE.
+  assert (Hd : Rabs (y - E) <= Rabs E * u64).
+  { rewrite Hy. replace (E * (1 + eps) - E) with (E * eps) by ring. rewrite Rabs_mult.
+    apply Rmult_le_compat_l; [apply Rabs_pos|exact He]. }
+  assert (H52 : IZR (2 ^ 52) * u64 = / 2).
+  { rewrite u64_val. replace (IZR (2 ^ 53)) with (2 * IZR (2 ^ 52)) by (rewrite <- mult_IZR; reflexivity).
+    field. apply not_0_IZR. discriminate. }
+  pose proof u64_pos as Hu. pose proof (Rabs_pos E) as HE0.
+  assert (Hd2 : Rabs (y - E) <= / 2) by nra.
+  split; [apply Ztrunc_close; lra|]. split.
+  - replace (IZR (Ztrunc y) - E) with ((IZR (Ztrunc y) - y) + (y - E)) by ring.
+    eapply Rle_lt_trans; [apply Rabs_triang|]. pose proof (Ztrunc_dist y). lra.
+  - replace y with (E + (y - E)) by ring. eapply Rle_trans; [apply Rabs_triang|].
+    replace (IZR (2 ^ 53)) with (2 * IZR (2 ^ 52)) by (rewrite <- mult_IZR; reflexivity).
+    assert (1 <= IZR (2 ^ 52)) by (apply IZR_le; lia). lra.
+Qed.
+
+Section Single.
+Variables (rate : b64) (r : Q).
+Hypothesis Hfin : is_finite rate = true.
+Hypothesis Hrate : B2R rate = Q2R r.
+Hypothesis Hr_lo : bpow radix2 (-900) <= Q2R r.
+Hypothesis Hr_hi : Q2R r <= bpow radix2 1000.
+
+Lemma single_rate_pos : 0 < Q2R r.
+Proof. pose proof (bpow_gt_0 radix2 (-900)). lra. Qed.
+
+Lemma single_r_nonzero : ~ (r == 0)%Q.
+Proof. intro H. apply Qeq_eqR in H. rewrite RMicromega.Q2R_0 in H. pose proof single_rate_pos. lra. Qed.
+
+(* ---- sample id -> time:  utc[0] + (int64_t) ((double)(q - s0) / rate * 2^30) ---- *)
+Theorem fp_single_id_to_time_within_one : forall s0 u0 q : Z,
+  (Z.abs (q - s0) <= 2 ^ 53)%Z -> (Z.abs u0 <= 2 ^ 62)%Z ->
+  (Qabs ((inject_Z (q - s0) / r) * inject_Z (2 ^ 30)) <= inject_Z (2 ^ 52))%Q ->
+  exists v v' : Z,
+    single_id_to_time r s0 u0 q = TmOk v /\ fp_single_id_to_time rate s0 u0 q = TmOk v' /\
+    (-1 <= v' - v <= 1)%Z /\
+    (Qabs (inject_Z v' - (inject_Z u0 + (inject_Z (q - s0) / r) * inject_Z (2 ^ 30))) <
+       1 + Qabs ((inject_Z (q - s0) / r) * inject_Z (2 ^ 30)) * (1 # 2 ^ 53))%Q.
+Proof.
+  intros s0 u0 q Hd Hu0 HE.
+  pose proof single_rate_pos as Hrp. pose proof single_r_nonzero as Hr0.
+  set (d := (q - s0)%Z) in *.
+  set (EQ := ((inject_Z d / r) * inject_Z (2 ^ 30))%Q) in *.
+  set (E := IZR d / Q2R r * IZR (2 ^ 30)).
+  assert (HEQ : Q2R EQ = E).
+  { unfold EQ, E. rewrite Q2R_mult, Q2R_div, !Q2R_inject_Z by exact Hr0. reflexivity. }
+  pose proof (Qabs_le_R _ _ HE) as HEb. rewrite HEQ in HEb.
+  assert (P30 : IZR (2 ^ 30) = bpow radix2 30) by (symmetry; apply bpow_IZR; lia).
+  assert (P30p : 0 < IZR (2 ^ 30)) by (apply IZR_lt; reflexivity).
+  (* the quotient d / rate *)
+  destruct (b64_of_Z_exact d Hd) as [Vd Fd].
+  assert (Hq : Rabs (IZR d / Q2R r) <= IZR (2 ^ 52)).
+  { assert (Rabs E = Rabs (IZR d / Q2R r) * IZR (2 ^ 30)) by (unfold E; rewrite Rabs_mult, (Rabs_pos_eq (IZR (2 ^ 30))); lra).
+    assert (1 <= IZR (2 ^ 30)) by (apply IZR_le; lia).
+    pose proof (Rabs_pos (IZR d / Q2R r)). nra. }
+  destruct (b64_div_RN (b64_of_Z d) rate) as [Vq Fq].
+  { rewrite Hrate. lra. }
+  { exact Fd. }
+  { rewrite Vd, Hrate. eapply Rle_trans; [exact Hq|]. rewrite (bpow_IZR 1023) by lia. apply IZR_le. lia. }
+  rewrite Vd, Hrate in Vq.
+  (* relative error of that one rounding *)
+  assert (Hrel : exists eps, Rabs eps <= u64 /\ RN (IZR d / Q2R r) = IZR d / Q2R r * (1 + eps)).
+  { destruct (Z.eq_dec d 0) as [Z0|Z0].
+    - exists 0. rewrite Z0. unfold Rdiv. rewrite Rmult_0_l, RN_0, Rabs_R0. split; [apply Rlt_le, u64_pos|ring].
+    - destruct (RN_rel (IZR d / Q2R r)) as [eps [H1 H2]].
+      + unfold Rdiv. rewrite Rabs_mult, Rabs_inv, (Rabs_pos_eq (Q2R r)) by lra.
+        pose proof (IZR_abs_ge1 d Z0).
+        assert (/ bpow radix2 1000 <= / Q2R r) by (apply Rinv_le_contravar; lra).
+        rewrite <- bpow_opp in H0.
+        assert (bpow radix2 (-1022) <= bpow radix2 (-1000)) by (apply bpow_le; lia).
+        pose proof (bpow_gt_0 radix2 (-1000)). change (- (1000))%Z with (-1000)%Z in H0. nra.
+      + exists eps. split; [|exact H2]. pose proof u64_pos.
+        assert (u64 / (1 + u64) <= u64); [|lra].
+        apply Rmult_le_reg_r with (1 + u64); [lra|]. unfold Rdiv. rewrite Rmult_assoc, Rinv_l by lra. nra. }
+  destruct Hrel as [eps [Heps Hrn]].
+  set (y := RN (IZR d / Q2R r) * IZR (2 ^ 30)).
+  assert (Hy : y = E * (1 + eps)) by (unfold y, E; rewrite Hrn; ring).
+  destruct (trunc_after_rounding E y eps Heps Hy HEb) as [T1 [T2 T3]].
+  (* the scaling by 2^30 is exact *)
+  destruct (b64_of_Z_exact (2 ^ 30) ltac:(lia)) as [V30 F30].
+  destruct (b64_mul_RN (b64_div (b64_of_Z d) rate) (b64_of_Z (2 ^ 30)) Fq F30) as [Vp Fp].
+  { rewrite Vq, V30. fold y. eapply Rle_trans; [exact T3|]. rewrite (bpow_IZR 1023) by lia. apply IZR_le. lia. }
+  rewrite Vq, V30 in Vp. fold y in Vp.
+  assert (Hyf : RN y = y).
+  { apply RN_id. unfold y. rewrite P30. apply format_scale; [lia|apply RN_format]. }
+  rewrite Hyf in Vp.
+  assert (Hk' : (Z.abs (Ztrunc y) <= 2 ^ 53)%Z) by (apply Ztrunc_abs_le; exact T3).
+  assert (Hk : (Z.abs (Ztrunc E) <= 2 ^ 52)%Z) by (apply Ztrunc_abs_le; exact HEb).
+  exists (u0 + Ztrunc E)%Z, (u0 + Ztrunc y)%Z.
+  split; [|split; [|split]].
+  - unfold single_id_to_time. fold d. rewrite (in64_of_abs d) by lia. cbn [negb].
+    change TMAP_TIME_SECOND with (2 ^ 30)%Z. fold EQ. rewrite Qtrunc_R, HEQ.
+    rewrite (in64_of_abs (Ztrunc E)), (in64_of_abs (u0 + Ztrunc E)) by lia. reflexivity.
+  - unfold fp_single_id_to_time. fold d. rewrite (in64_of_abs d) by lia. cbn [negb].
+    change TMAP_TIME_SECOND with (2 ^ 30)%Z.
+    rewrite b64_to_i64_trunc; [|exact Fp|].
+    + rewrite Vp. rewrite (in64_of_abs (u0 + Ztrunc y)) by lia. reflexivity.
+    + rewrite Vp. eapply Rle_trans; [exact T3|]. apply IZR_le. lia.
+  - lia.
+  - apply Rlt_Qlt. rewrite Q2R_Qabs, Q2R_minus, !Q2R_plus, Q2R_mult, Q2R_Qabs, !Q2R_inject_Z, HEQ.
+    rewrite Q2R_pow2_inv. change (- Z.pos 53)%Z with (-53)%Z. fold u64.
+    replace (Q2R 1) with 1 by (unfold Q2R; cbn; lra).
+    rewrite plus_IZR. replace (IZR u0 + IZR (Ztrunc y) - (IZR u0 + E)) with (IZR (Ztrunc y) - E) by ring.
+    exact T2.
+Qed.
+
+(* ---- time -> sample id:  sample_id[0] + (int64_t) ((double)(q - u0) * (1.0 / 2^30) * rate) ---- *)
+Theorem fp_single_time_to_id_within_one : forall s0 u0 q : Z,
+  (Z.abs (q - u0) <= 2 ^ 53)%Z -> (Z.abs s0 <= 2 ^ 62)%Z ->
+  (Qabs ((inject_Z (q - u0) * (1 / inject_Z (2 ^ 30))) * r) <= inject_Z (2 ^ 52))%Q ->
+  exists v v' : Z,
+    single_time_to_id r s0 u0 q = TmOk v /\ fp_single_time_to_id rate s0 u0 q = TmOk v' /\
+    (-1 <= v' - v <= 1)%Z /\
+    (Qabs (inject_Z v' - (inject_Z s0 + (inject_Z (q - u0) * (1 / inject_Z (2 ^ 30))) * r)) <
+       1 + Qabs ((inject_Z (q - u0) * (1 / inject_Z (2 ^ 30))) * r) * (1 # 2 ^ 53))%Q.
+Proof.
+  intros s0 u0 q Hd Hs0 HE.
+  pose proof single_rate_pos as Hrp.
+  set (d := (q - u0)%Z) in *.
+  set (EQ := ((inject_Z d * (1 / inject_Z (2 ^ 30))) * r)%Q) in *.
+  set (E := IZR d * bpow radix2 (-30) * Q2R r).
+  assert (P30 : IZR (2 ^ 30) = bpow radix2 30) by (symmetry; apply bpow_IZR; lia).
+  assert (HEQ : Q2R EQ = E).
+  { unfold EQ, E. rewrite !Q2R_mult, Q2R_div, !Q2R_inject_Z.
+    - replace (Q2R 1) with 1 by (unfold Q2R; cbn; lra). rewrite P30. unfold Rdiv. rewrite Rmult_1_l.
+      rewrite <- bpow_opp. reflexivity.
+    - intro H. unfold Qeq, inject_Z in H. cbn in H. lia. }
+  pose proof (Qabs_le_R _ _ HE) as HEb. rewrite HEQ in HEb.
+  destruct (b64_of_Z_exact d Hd) as [Vd Fd].
+  destruct (b64_of_Z_exact 1 ltac:(lia)) as [V1 F1].
+  destruct (b64_of_Z_exact (2 ^ 30) ltac:(lia)) as [V30 F30].
+  (* 1.0 / 2^30 = 2^-30 exactly *)
+  destruct (b64_div_RN (b64_of_Z 1) (b64_of_Z (2 ^ 30))) as [Vi Fi].
+  { rewrite V30. apply not_0_IZR. discriminate. }
+  { exact F1. }
+  { rewrite V1, V30, P30. unfold Rdiv. rewrite Rmult_1_l, <- bpow_opp, Rabs_pos_eq by apply bpow_ge_0. apply bpow_le. lia. }
+  rewrite V1, V30, P30 in Vi. unfold Rdiv in Vi. rewrite Rmult_1_l, <- bpow_opp in Vi.
+  change (- (30))%Z with (-30)%Z in Vi.
+  rewrite RN_id in Vi by (apply format_bpow; lia).
+  (* d * 2^-30 exactly *)
+  destruct (b64_mul_RN (b64_of_Z d) (b64_div (b64_of_Z 1) (b64_of_Z (2 ^ 30))) Fd Fi) as [V2 F2].
+  { rewrite Vd, Vi, Rabs_mult, (Rabs_pos_eq (bpow radix2 (-30))) by apply bpow_ge_0.
+    apply Rle_trans with (IZR (2 ^ 53) * bpow radix2 0).
+    - apply Rmult_le_compat; [apply Rabs_pos|apply bpow_ge_0|apply IZR_abs_le; exact Hd|apply bpow_le; lia].
+    - change (bpow radix2 0) with 1. rewrite Rmult_1_r, (bpow_IZR 1023) by lia. apply IZR_le. lia. }
+  rewrite Vd, Vi in V2. rewrite RN_id in V2 by (apply format_IZR_bpow; [exact Hd|lia]).
+  (* the product with the rate: one rounding *)
+  assert (Hrel : exists eps, Rabs eps <= u64 /\ RN E = E * (1 + eps)).
+  { destruct (Z.eq_dec d 0) as [Z0|Z0].
+    - exists 0. unfold E. rewrite Z0, !Rmult_0_l, RN_0, Rabs_R0. split; [apply Rlt_le, u64_pos|ring].
+    - destruct (RN_rel E) as [eps [H1 H2]].
+      + unfold E. rewrite !Rabs_mult, (Rabs_pos_eq (bpow radix2 (-30))), (Rabs_pos_eq (Q2R r)) by (apply bpow_ge_0 || lra).
+        pose proof (IZR_abs_ge1 d Z0).
+        assert (bpow radix2 (-1022) <= bpow radix2 (-30) * bpow radix2 (-900)) by (rewrite <- bpow_plus; apply bpow_le; lia).
+        pose proof (bpow_gt_0 radix2 (-30)). pose proof (bpow_gt_0 radix2 (-900)).
+        assert (bpow radix2 (-30) * bpow radix2 (-900) <= bpow radix2 (-30) * Q2R r) by (apply Rmult_le_compat_l; lra).
+        assert (0 <= bpow radix2 (-30) * Q2R r) by (apply Rmult_le_pos; lra).
+        replace (Rabs (IZR d) * bpow radix2 (-30) * Q2R r) with (Rabs (IZR d) * (bpow radix2 (-30) * Q2R r)) by ring.
+        nra.
+      + exists eps. split; [|exact H2]. pose proof u64_pos.
+        assert (u64 / (1 + u64) <= u64); [|lra].
+        apply Rmult_le_reg_r with (1 + u64); [lra|]. unfold Rdiv. rewrite Rmult_assoc, Rinv_l by lra. nra. }
+  destruct Hrel as [eps [Heps Hrn]].
+  destruct (trunc_after_rounding E (RN E) eps Heps Hrn HEb) as [T1 [T2 T3]].
+  destruct (b64_mul_RN (b64_mul (b64_of_Z d) (b64_div (b64_of_Z 1) (b64_of_Z (2 ^ 30)))) rate F2 Hfin) as [Vp Fp].
+  { rewrite V2, Hrate. fold E. apply Rle_trans with (IZR (2 ^ 52)); [exact HEb|].
+    rewrite (bpow_IZR 1023) by lia. apply IZR_le. lia. }
+  rewrite V2, Hrate in Vp. fold E in Vp.
+  assert (Hk' : (Z.abs (Ztrunc (RN E)) <= 2 ^ 53)%Z) by (apply Ztrunc_abs_le; exact T3).
+  assert (Hk : (Z.abs (Ztrunc E) <= 2 ^ 52)%Z) by (apply Ztrunc_abs_le; exact HEb).
+  exists (s0 + Ztrunc E)%Z, (s0 + Ztrunc (RN E))%Z.
+  split; [|split; [|split]].
+  - unfold single_time_to_id. fold d. rewrite (in64_of_abs d) by lia. cbn [negb].
+    change TMAP_TIME_SECOND with (2 ^ 30)%Z. fold EQ. rewrite Qtrunc_R, HEQ.
+    rewrite (in64_of_abs (Ztrunc E)), (in64_of_abs (s0 + Ztrunc E)) by lia. reflexivity.
+  - unfold fp_single_time_to_id. fold d. rewrite (in64_of_abs d) by lia. cbn [negb].
+    change TMAP_TIME_SECOND with (2 ^ 30)%Z.
+    rewrite b64_to_i64_trunc; [|exact Fp|].
+    + rewrite Vp. rewrite (in64_of_abs (s0 + Ztrunc (RN E))) by lia. reflexivity.
+    + rewrite Vp. eapply Rle_trans; [exact T3|]. apply IZR_le. lia.
+  - lia.
+  - apply Rlt_Qlt. rewrite Q2R_Qabs, Q2R_minus, !Q2R_plus, Q2R_mult, Q2R_Qabs, !Q2R_inject_Z, HEQ.
+    rewrite Q2R_pow2_inv. change (- Z.pos 53)%Z with (-53)%Z. fold u64.
+    replace (Q2R 1) with 1 by (unfold Q2R; cbn; lra).
+    rewrite plus_IZR. replace (IZR s0 + IZR (Ztrunc (RN E)) - (IZR s0 + E)) with (IZR (Ztrunc (RN E)) - E) by ring.
+    exact T2.
+Qed.
+End Single.
+
+(* the two conversion functions on a map holding a single entry *)
+Theorem fp_tmap_single_within_one : forall (rate : b64) (t : tmap) (s0 u0 q : Z),
+  tm_entries t = [(s0, u0)] ->
+  is_finite rate = true -> B2R rate = Q2R (tm_rate t) ->
+  bpow radix2 (-900) <= Q2R (tm_rate t) <= bpow radix2 1000 ->
+  ((Z.abs (q - s0) <= 2 ^ 53)%Z -> (Z.abs u0 <= 2 ^ 62)%Z ->
+   (Qabs ((inject_Z (q - s0) / tm_rate t) * inject_Z (2 ^ 30)) <= inject_Z (2 ^ 52))%Q ->
+   exists v v' : Z,
+     tmap_sample_id_to_timestamp t q = QVal v /\ fp_tmap_sample_id_to_timestamp rate t q = QVal v' /\
+     (-1 <= v' - v <= 1)%Z /\
+     (Qabs (inject_Z v' - (inject_Z u0 + (inject_Z (q - s0) / tm_rate t) * inject_Z (2 ^ 30))) <
+        1 + Qabs ((inject_Z (q - s0) / tm_rate t) * inject_Z (2 ^ 30)) * (1 # 2 ^ 53))%Q) /\
+  ((Z.abs (q - u0) <= 2 ^ 53)%Z -> (Z.abs s0 <= 2 ^ 62)%Z ->
+   (Qabs ((inject_Z (q - u0) * (1 / inject_Z (2 ^ 30))) * tm_rate t) <= inject_Z (2 ^ 52))%Q ->
+   exists v v' : Z,
+     tmap_timestamp_to_sample_id t q = QVal v /\ fp_tmap_timestamp_to_sample_id rate t q = QVal v' /\
+     (-1 <= v' - v <= 1)%Z /\
+     (Qabs (inject_Z v' - (inject_Z s0 + (inject_Z (q - u0) * (1 / inject_Z (2 ^ 30))) * tm_rate t)) <
+        1 + Qabs ((inject_Z (q - u0) * (1 / inject_Z (2 ^ 30))) * tm_rate t) * (1 # 2 ^ 53))%Q).
+Proof.
+  intros rate t s0 u0 q Hent Hfin Hrate [Hlo Hhi].
+  assert (Hpos : 0 < Q2R (tm_rate t)) by (pose proof (bpow_gt_0 radix2 (-900)); lra).
+  assert (Hrp : rate_positive (tm_rate t) = true).
+  { apply rate_positive_iff. apply Rlt_Qlt. rewrite RMicromega.Q2R_0. exact Hpos. }
+  assert (Hle0 : b64_le0 rate = false) by (apply b64_le0_pos; [exact Hfin|rewrite Hrate; exact Hpos]).
+  unfold tmap_sample_id_to_timestamp, fp_tmap_sample_id_to_timestamp, tmap_timestamp_to_sample_id, fp_tmap_timestamp_to_sample_id.
+  rewrite Hent, Hrp, Hle0.
+  split; intros Hd Hb HE.
+  - destruct (fp_single_id_to_time_within_one rate (tm_rate t) Hrate Hlo Hhi s0 u0 q Hd Hb HE) as [v [v' [A [B [C D]]]]].
+    exists v, v'. rewrite A, B. cbn [qres_of]. auto.
+  - destruct (fp_single_time_to_id_within_one rate (tm_rate t) Hfin Hrate Hlo s0 u0 q Hd Hb HE) as [v [v' [A [B [C D]]]]].
+    exists v, v'. rewrite A, B. cbn [qres_of]. auto.
+Qed.
+
+(* a double given as num * 2^-sh (how the correspondence scripts name the sample rate) *)
+Definition b64_of_scaled (num : Z) (sh : N) : b64 :=
+  binary_normalize 53 1024 b64_prec_gt_0 b64_prec_lt_emax mode_NE num (- Z.of_N sh) false.
+
+Lemma b64_of_scaled_exact : forall (num : Z) (sh : N), (Z.abs num <= 2 ^ 53)%Z -> (Z.of_N sh <= 1074)%Z ->
+  is_finite (b64_of_scaled num sh) = true /\ B2R (b64_of_scaled num sh) = Q2R (tmap_rate num sh).
+Proof.
+  intros num sh Hn Hs. unfold b64_of_scaled.
+  pose proof (binary_normalize_correct 53 1024 b64_prec_gt_0 b64_prec_lt_emax mode_NE num (- Z.of_N sh) false) as H.
+  cbv zeta in H. rewrite b64_fexp in H. cbn [round_mode] in H.
+  set (x := F2R (Float radix2 num (- Z.of_N sh))) in *. fold (RN x) in H.
+  assert (Hx : x = IZR num * bpow radix2 (- Z.of_N sh)) by reflexivity.
+  assert (Fx : generic_format radix2 (FLT_exp (-1074) 53) x) by (rewrite Hx; apply format_IZR_bpow; [exact Hn|lia]).
+  rewrite (RN_id x Fx) in H.
+  assert (Hb : Rabs x <= IZR (2 ^ 53)).
+  { rewrite Hx, Rabs_mult, (Rabs_pos_eq (bpow _ _)) by apply bpow_ge_0.
+    pose proof (IZR_abs_le num _ Hn). assert (bpow radix2 (- Z.of_N sh) <= bpow radix2 0) by (apply bpow_le; lia).
+    change (bpow radix2 0) with 1 in H1. pose proof (bpow_ge_0 radix2 (- Z.of_N sh)). pose proof (Rabs_pos (IZR num)). nra. }
+  rewrite Rlt_bool_true in H.
+  - destruct H as [H1 [H2 _]]. split; [exact H2|]. rewrite H1, Hx.
+    unfold tmap_rate. rewrite Q2R_make. rewrite bpow_opp. unfold Rdiv. f_equal. f_equal.
+    rewrite bpow_IZR by lia. f_equal.
+    destruct sh as [|p]; [reflexivity|].
+    rewrite <- shift_pos_equiv. rewrite Zpower.shift_pos_correct. cbn [Z.of_N].
+    rewrite Z.mul_1_r. reflexivity.
+  - eapply Rle_lt_trans; [exact Hb|]. rewrite (bpow_IZR 1024) by lia. apply IZR_lt. reflexivity.
+Qed.
+
+(* the single-entry guards on realistic numbers: 1 MHz, one entry, a query one day later *)
+Definition fp_ex_single : tmap := tmap_add_all (tmap_alloc (1000000 # 1)) [(0, 2 ^ 58)%Z].
+
+Lemma fp_ex_single_ok :
+  tm_entries fp_ex_single = [(0, 2 ^ 58)%Z] /\
+  is_finite fp_ex_rate = true /\ B2R fp_ex_rate = Q2R (tm_rate fp_ex_single) /\
+  bpow radix2 (-900) <= Q2R (tm_rate fp_ex_single) <= bpow radix2 1000 /\
+  (Z.abs (86400000000 - 0) <= 2 ^ 53)%Z /\ (Z.abs (2 ^ 58) <= 2 ^ 62)%Z /\
+  (Qabs ((inject_Z (86400000000 - 0) / tm_rate fp_ex_single) * inject_Z (2 ^ 30)) <= inject_Z (2 ^ 52))%Q /\
+  fp_tmap_sample_id_to_timestamp fp_ex_rate fp_ex_single 86400000000 = QVal (2 ^ 58 + 86400 * 2 ^ 30)%Z /\
+  fp_tmap_sample_id_to_timestamp fp_ex_rate fp_ex_single 12345678901 = tmap_sample_id_to_timestamp fp_ex_single 12345678901 /\
+  fp_tmap_timestamp_to_sample_id fp_ex_rate fp_ex_single (2 ^ 58 + 86400 * 2 ^ 30)%Z = QVal 86400000000%Z.
+Proof.
+  split; [reflexivity|].
+  destruct (b64_of_Z_exact 1000000 ltac:(lia)) as [V F].
+  split; [exact F|].
+  assert (E : Q2R (tm_rate fp_ex_single) = 1000000).
+  { change (tm_rate fp_ex_single) with (1000000 # 1)%Q. unfold Q2R. cbn [Qnum Qden]. lra. }
+  split; [rewrite E; exact V|]. rewrite E.
+  split.
+  { split.
+    - apply Rle_trans with (bpow radix2 0); [apply bpow_le; lia|cbn; lra].
+    - apply Rle_trans with (bpow radix2 20); [rewrite (bpow_IZR 20) by lia; apply IZR_le; lia|apply bpow_le; lia]. }
+  split; [lia|]. split; [lia|].
+  split; [vm_compute; discriminate|].
+  split; [vm_compute; reflexivity|]. split; vm_compute; reflexivity.
+Qed.
+
+(* ====================================================================================== *)
+(* 13. round trip in binary64: time -> id of (id -> time) is within one sample             *)
+(* ====================================================================================== *)
+Local Open Scope Z_scope.
+
+Lemma sorted_lt_le_nth : forall l a b, sorted_lt l -> (a <= b)%nat -> (b < length l)%nat -> nth a l 0 <= nth b l 0.
+Proof.
+  intros l a b Hs Hab Hb. destruct (Nat.eq_dec a b) as [->|Hne]; [lia|].
+  pose proof (Hs a b ltac:(lia)). lia.
+Qed.
+
+Theorem fp_interp_inverse_inside : forall xs ys q t' q'',
+  sorted_lt xs -> sorted_lt ys -> length ys = length xs -> (2 <= length xs)%nat ->
+  fp_map_ok xs ys -> fp_map_ok ys xs ->
+  (forall j, (j + 1 < length xs)%nat -> nth (S j) xs 0 - nth j xs 0 <= nth (S j) ys 0 - nth j ys 0) ->
+  nth 0 xs 0 <= q <= nth (length xs - 1) xs 0 ->
+  fp_interp xs ys q = TmOk t' -> fp_interp ys xs t' = TmOk q'' ->
+  -1 <= q'' - q <= 1.
+Proof.
+  intros xs ys q t' q'' Hsx Hsy Hlen Hl Hm Hm' Hslope Hq H1 H2.
+  assert (Hl' : (2 <= length ys)%nat) by lia.
+  destruct (search_fixed_seg_ok xs q Hsx Hl) as [c [_ Hc]].
+  destruct (fp_interp_inside_value xs ys q c Hsx Hl Hm Hq Hc) as [_ [B [_ K]]].
+  destruct (fp_guard_inside xs ys q c Hsx Hm Hq Hc) as [G [Hdk [Hds Hdt]]].
+  destruct G as [G1 [G2 [G3 [G4 G5]]]].
+  pose proof Hc as [C1 _].
+  rewrite B in H1. inversion H1 as [Ht']. clear H1.
+  set (dk := q - nth c xs 0) in *. set (ds := nth (S c) xs 0 - nth c xs 0) in *.
+  set (dt := nth (S c) ys 0 - nth c ys 0) in *.
+  set (kf := ZnearestA (RN (IZR dk * RN (IZR dt / IZR ds)))) in *.
+  pose proof (ik_dist_lt1 dk ds dt G1 G2 G3 ltac:(lia) G4) as D1. fold kf in D1.
+  pose proof (Hslope c ltac:(lia)) as Hsl. fold ds dt in Hsl.
+  assert (Hdtpos : 0 < dt) by lia.
+  assert (Rds : (0 < IZR ds)%R) by (apply IZR_lt; lia).
+  assert (Rdt : (0 < IZR dt)%R) by (apply IZR_lt; lia).
+  assert (Rsl : (IZR ds <= IZR dt)%R) by (apply IZR_le; lia).
+  (* range of t' among the times *)
+  assert (Hrange : nth 0 ys 0 <= t' <= nth (length ys - 1) ys 0).
+  { pose proof (sorted_lt_le_nth ys 0 c Hsy ltac:(lia) ltac:(lia)).
+    pose proof (sorted_lt_le_nth ys (S c) (length ys - 1) Hsy ltac:(lia) ltac:(lia)).
+    subst t'. unfold dt in K. lia. }
+  destruct (Z.eq_dec kf dt) as [Ekf|Nkf].
+  - (* t' is the right anchor time: the result is the right anchor id, and q is that id *)
+    destruct (fp_interp_inside ys xs t' Hsy Hl' Hm' Hrange) as [c' [v [v' [_ [_ [B' [_ [_ An]]]]]]]].
+    rewrite B' in H2. inversion H2; subst v'.
+    destruct (An (S c) ltac:(lia) ltac:(subst t'; rewrite Ekf; unfold dt; lia)) as [E1 _].
+    rewrite E1.
+    assert (dk = ds); [|unfold dk, ds in *; lia].
+    rewrite Ekf in D1. apply Rabs_def2 in D1.
+    (* dt - 1 < dk dt / ds  ->  (ds - dk) dt < ds <= dt  ->  ds - dk < 1 *)
+    assert (H0 : (IZR (ds - dk) * IZR dt < IZR ds)%R).
+    { rewrite minus_IZR.
+      assert (E : (IZR dk * (IZR dt / IZR ds) = IZR dk * IZR dt / IZR ds)%R) by (field; lra).
+      rewrite E in D1.
+      assert ((IZR dt - 1) * IZR ds < IZR dk * IZR dt)%R.
+      { apply Rmult_lt_reg_r with (/ IZR ds)%R; [apply Rinv_0_lt_compat; lra|].
+        rewrite Rmult_assoc, Rinv_r by lra. unfold Rdiv in D1. lra. }
+      nra. }
+    assert (H3 : (IZR (ds - dk) < 1)%R).
+    { assert (0 <= IZR (ds - dk))%R by (apply IZR_le; lia).
+      destruct (Rlt_or_le (IZR (ds - dk)) 1) as [L|L]; [exact L|]. exfalso. nra. }
+    apply lt_IZR in H3. lia.
+  - (* y[c] <= t' < y[c+1]: the same segment is selected on the way back *)
+    assert (Hc' : seg_ok ys t' c).
+    { apply seg_ok_inside; [exact Hsy|lia|]. subst t'. unfold dt in *. lia. }
+    destruct (fp_interp_inside_value ys xs t' c Hsy Hl' Hm' Hrange Hc') as [_ [B' [_ _]]].
+    destruct (fp_guard_inside ys xs t' c Hsy Hm' Hrange Hc') as [[G1' [G2' [G3' [G4' G5']]]] _].
+    rewrite B' in H2. inversion H2 as [Hq'']. clear H2.
+    assert (Edk' : t' - nth c ys 0 = kf) by (subst t'; lia).
+    rewrite Edk' in *. fold dt ds in G2', G3', G4', Hq'' |- *.
+    set (kf2 := ZnearestA (RN (IZR kf * RN (IZR ds / IZR dt)))) in *.
+    pose proof (ik_dist_lt1 kf dt ds G1' G2' G3' ltac:(lia) G4') as D2. fold kf2 in D2.
+    assert (q'' - q = kf2 - dk) by (unfold dk; lia).
+    assert (Hfin : (Rabs (IZR kf2 - IZR dk) < 2)%R).
+    { replace (IZR kf2 - IZR dk)%R with ((IZR kf2 - IZR kf * (IZR ds / IZR dt)) + (IZR kf - IZR dk * (IZR dt / IZR ds)) * (IZR ds / IZR dt))%R by (field; lra).
+      eapply Rle_lt_trans; [apply Rabs_triang|]. rewrite Rabs_mult.
+      assert (0 < IZR ds / IZR dt <= 1)%R.
+      { split; [apply Rmult_lt_0_compat; [lra|apply Rinv_0_lt_compat; lra]|].
+        apply Rmult_le_reg_r with (IZR dt); [lra|]. unfold Rdiv. rewrite Rmult_assoc, Rinv_l by lra. lra. }
+      rewrite (Rabs_pos_eq (IZR ds / IZR dt)) by lra.
+      pose proof (Rabs_pos (IZR kf - IZR dk * (IZR dt / IZR ds))). nra. }
+    apply Rabs_def2 in Hfin.
+    assert (F : (IZR (-2) < IZR (kf2 - dk) < IZR 2)%R) by (rewrite minus_IZR; lra).
+    destruct F as [F1 F2]. apply lt_IZR in F1. apply lt_IZR in F2. lia.
+Qed.
+
+Theorem fp_tmap_inverse_inside : forall (rate : b64) (t : tmap) (q tm q' : Z),
+  sorted_lt (ids t) -> sorted_lt (times t) -> (2 <= length (tm_entries t))%nat ->
+  fp_map_ok (ids t) (times t) -> fp_map_ok (times t) (ids t) ->
+  (forall i, (i + 1 < length (tm_entries t))%nat ->
+     nth (S i) (ids t) 0 - nth i (ids t) 0 <= nth (S i) (times t) 0 - nth i (times t) 0) ->
+  nth 0 (ids t) 0 <= q <= nth (length (tm_entries t) - 1) (ids t) 0 ->
+  fp_tmap_sample_id_to_timestamp rate t q = QVal tm ->
+  fp_tmap_timestamp_to_sample_id rate t tm = QVal q' ->
+  -1 <= q' - q <= 1.
+Proof.
+  intros rate t q tm q' Hsx Hsy Hl Hm Hm' Hslope Hq H1 H2.
+  destruct (tmap_multi rate t q Hl) as [_ [E1 _]]. destruct (tmap_multi rate t tm Hl) as [_ [_ [_ E2]]].
+  rewrite E1 in H1. rewrite E2 in H2. apply qres_of_val in H1. apply qres_of_val in H2.
+  apply (fp_interp_inverse_inside (ids t) (times t) q tm q'); try assumption.
+  - rewrite ids_length, times_length. reflexivity.
+  - rewrite ids_length. exact Hl.
+  - intros j Hj. apply Hslope. rewrite <- ids_length. exact Hj.
+  - rewrite ids_length. exact Hq.
+Qed.
+
+Lemma fp_ex_map_slope : forall i, (i + 1 < length (tm_entries fp_ex_map))%nat ->
+  nth (S i) (ids fp_ex_map) 0 - nth i (ids fp_ex_map) 0 <= nth (S i) (times fp_ex_map) 0 - nth i (times fp_ex_map) 0.
+Proof.
+  intros i Hi. change (length (tm_entries fp_ex_map)) with 3%nat in Hi.
+  destruct i as [|[|i]]; [apply Z.leb_le; vm_compute; reflexivity|apply Z.leb_le; vm_compute; reflexivity|lia].
+Qed.
